@@ -384,7 +384,35 @@ var c17Headers = [][]byte{
 // ---------------------------------------------------------------------------
 // storage faults
 
-var c17FaultNames = []string{"store.flip", "store.overwrite", "store.torn", "store.lost", "store.dup", "store.misdirect", "store.zero", "store.lenfield", "store.token", "store.extbody", "store.header"}
+// type descriptions a hostile or damaged dynamic-value wrapper may carry: object types with
+// optional attributes at several positions (legal type JSON; meaningful only as conversion targets)
+var c17WrapperTypes = []string{
+	`["object",{"a":"string","b":"number"},["b"]]`,
+	`["object",{"a":"string"},["a"]]`,
+	`["list",["object",{"a":"string"},["a"]]]`,
+	`["set",["object",{"a":"string"},["a"]]]`,
+	`["map",["object",{"a":"string","b":"bool"},["a","b"]]]`,
+	`["tuple",[["object",{"a":"string"},["a"]],"string"]]`,
+	`["object",{"x":["object",{"a":"string"},["a"]],"y":"string"}]`,
+	`["object",{"x":["list",["object",{"a":"number"},["a"]]]},["x"]]`,
+}
+
+// values that make a decoder build its result straight from the wrapper's type
+var c17WrapperJSONValues = []string{"null", "[]", "{}", "[null]", `{"x":null,"y":"s"}`, `{"x":null}`, `{"a":"s"}`, `[{"a":null}]`}
+var c17WrapperMsgpackValues = [][]byte{{0xc0}, {0x90}, {0x80}, {0xd4, 0x00, 0x00}, {0x91, 0xc0}, {0x82, 0xa1, 'x', 0xc0, 0xa1, 'y', 0xa1, 's'}, {0x81, 0xa1, 'a', 0xa1, 's'}, {0x91, 0x81, 0xa1, 'a', 0xc0}}
+
+func c17JSONWrapper(c *Ctx, draw func(int) int) []byte {
+	return []byte(`{"type":` + c17WrapperTypes[draw(len(c17WrapperTypes))] + `,"value":` + c17WrapperJSONValues[draw(len(c17WrapperJSONValues))] + `}`)
+}
+
+func c17MsgpackWrapper(c *Ctx, draw func(int) int) []byte {
+	ty := c17WrapperTypes[draw(len(c17WrapperTypes))]
+	out := append([]byte{0x92}, mpHeader("bin", len(ty), 0)...)
+	out = append(out, ty...)
+	return append(out, c17WrapperMsgpackValues[draw(len(c17WrapperMsgpackValues))]...)
+}
+
+var c17FaultNames = []string{"store.flip", "store.overwrite", "store.torn", "store.lost", "store.dup", "store.misdirect", "store.zero", "store.lenfield", "store.token", "store.extbody", "store.header", "store.wrapper"}
 
 var c17LenChoices = []int{0, 1, 15, 16, 31, 32, 255, 256, 65535, 65536, 1 << 20, 1 << 24, 1<<31 - 1, 1<<32 - 1}
 
@@ -530,6 +558,31 @@ func c17ApplyFault(c *Ctx, kind int, data []byte, others [][]byte) []byte {
 			return out
 		}
 		return append([]byte(nil), h...)
+	case 11: // some item becomes a dynamic-value wrapper whose type carries optional attributes
+		if n > 0 && (data[0] == '{' || data[0] == '[' || data[0] == '"') {
+			toks := jsonTokens(data)
+			w := c17JSONWrapper(c, c.F)
+			if len(toks) > 0 {
+				t := toks[c.F(len(toks))]
+				out := append([]byte(nil), data[:t.a]...)
+				out = append(out, w...)
+				return append(out, data[t.b:]...)
+			}
+			return w
+		}
+		items := mpScan(data)
+		w := c17MsgpackWrapper(c, c.F)
+		if len(items) > 0 {
+			it := items[c.F(len(items))]
+			end := it.end
+			if end < it.off+it.hdr || end > n {
+				end = n
+			}
+			out := append([]byte(nil), data[:it.off]...)
+			out = append(out, w...)
+			return append(out, data[end:]...)
+		}
+		return w
 	}
 	return append([]byte(nil), data...)
 }
@@ -734,6 +787,13 @@ func c17GenRecord(c *Ctx) c17Record {
 			}
 		}
 		return c17Record{codec: "noise", data: b, desc: fmt.Sprintf("%x", b)}
+	case kind == 8 && c.G(3) == 0: // a dynamic-value wrapper whose type carries optional attributes
+		if c.G(2) == 0 {
+			b := c17JSONWrapper(c, c.G)
+			return c17Record{codec: "crafted", data: b, enc: tDynamic, desc: string(b)}
+		}
+		b := c17MsgpackWrapper(c, c.G)
+		return c17Record{codec: "crafted", data: b, enc: tDynamic, desc: fmt.Sprintf("%x", b)}
 	case kind == 8: // a bare hostile refinement record
 		body := c17RefBodies[c.G(len(c17RefBodies))]
 		return c17Record{codec: "crafted", data: mpExt(0x0c, body), desc: fmt.Sprintf("ext12 %x", body)}
